@@ -809,6 +809,70 @@ func armTag(b *ssa.BasicBlock) (string, ssa.Value, bool) {
 	return "", nil, false
 }
 
+// armEntry returns the block through which the `x == "tag"` arm containing b is
+// entered (the true successor of the nearest such comparison), and the tag.
+func armEntry(b *ssa.BasicBlock) (*ssa.BasicBlock, string) {
+	for b != nil {
+		d := b.Idom()
+		if d == nil {
+			return nil, ""
+		}
+		if ifi, ok := d.Instrs[len(d.Instrs)-1].(*ssa.If); ok && len(b.Preds) == 1 && b.Preds[0] == d && d.Succs[0] == b && d.Succs[1] != b {
+			if c, ok := ifi.Cond.(*ssa.BinOp); ok && c.Op == token.EQL {
+				if s, ok := constStr(c.Y); ok {
+					return b, s
+				}
+				if s, ok := constStr(c.X); ok {
+					return b, s
+				}
+			}
+		}
+		b = d
+	}
+	return nil, ""
+}
+
+// canBypass: control entering block from can reach block to (a loop header:
+// the next iteration) without executing any instruction of must. Paths that
+// leave through a return do not count. within (optional) restricts the walk.
+func canBypass(from, to *ssa.BasicBlock, must map[ssa.Instruction]bool, within map[*ssa.BasicBlock]bool) bool {
+	seen := map[*ssa.BasicBlock]bool{}
+	var walk func(b *ssa.BasicBlock) bool
+	walk = func(b *ssa.BasicBlock) bool {
+		if seen[b] || (within != nil && !within[b]) {
+			return false
+		}
+		seen[b] = true
+		for _, in := range b.Instrs {
+			if must[in] {
+				return false
+			}
+		}
+		succs := b.Succs
+		if ifi, ok := b.Instrs[len(b.Instrs)-1].(*ssa.If); ok {
+			if c, ok := ifi.Cond.(*ssa.Const); ok && c.Value != nil && c.Value.Kind() == constant.Bool {
+				if constant.BoolVal(c.Value) {
+					succs = succs[:1]
+				} else {
+					succs = succs[1:]
+				}
+			}
+		}
+		for _, s := range succs {
+			if s == to || walk(s) {
+				return true
+			}
+		}
+		return false
+	}
+	return walk(from)
+}
+
+// loopOf returns the innermost loop of fn containing b.
+func loopOf(b *ssa.BasicBlock) *ssau.Loop {
+	return ssau.InnermostLoop(ssau.Loops(b.Parent()), b)
+}
+
 // liveInstrs calls f for each instruction of fn that is reachable from the
 // entry when branches on constant conditions (`if false { … }`) are folded, so
 // that dead code can neither satisfy nor violate a rule.
